@@ -23,6 +23,7 @@ import (
 	"encoding/json"
 	"fmt"
 	"os"
+	"reflect"
 	"regexp"
 	"sort"
 	"strings"
@@ -41,20 +42,29 @@ import (
 // first tokens (a pattern must start with '/'), and tokens for the following positions
 var firstTokens = []string{"/a", "/b", "/", "/**"}
 var restTokens = []string{"/a", "/b", "/", "b", "?", "*", "/**", "**",
-	"{a,b}", "{,/}", "{/a,b/}", "{a,{b,ab}}", `\*`, `\{`, "{", ",", "}", "["}
+	"{a,b}", "{,/}", "{/a,b/}", "{a,{b,ab}}", `\*`, `\?`, `\{`, `\}`, `\\`, "{", ",", "}", "["}
+
+// the remaining escaped metacharacters (thorough tier): with the five above, every character the scanner or
+// the variant parser treats specially has an escaped token: \* \? \{ \} \\ \[ \] \,
+var moreEscapes = []string{`\[`, `\]`, `\,`}
 
 // tokens that are plain, group-free pattern text (used for the precedence pool and for generalisation)
-var groupFree = map[string]bool{"/a": true, "/b": true, "/": true, "b": true, "?": true, "*": true, "/**": true, "**": true, `\*`: true, `\{`: true}
+var groupFree = map[string]bool{"/a": true, "/b": true, "/": true, "b": true, "?": true, "*": true, "/**": true, "**": true,
+	`\*`: true, `\?`: true, `\{`: true, `\}`: true, `\\`: true, `\[`: true, `\]`: true, `\,`: true}
 
 var pathSegs = []string{"a", "b", "ab", ""}
-var extraSegs = []string{"a", "b", "ab", "", "*", "{", "a*", "{a"}
+
+// segments carrying the literal characters that escaped tokens stand for, so that "escaped literal" and
+// "wildcard / group syntax" are told apart by some path
+var extraSegs = []string{"a", "b", "ab", "", "*", "?", "{", "a*", "a?", "{a"}
+var rareSegs = []string{"}", `\`, "[", "]", ",", "a}", `a\`, "a[", "a]", "a,", "b?", "b*"}
 
 type pat struct {
 	s      string
 	tokens []string
 }
 
-func allPatterns(maxTokens int) []pat {
+func allPatterns(maxTokens int, restTokens []string) []pat {
 	var res []pat
 	prev := []pat{}
 	for _, t := range firstTokens {
@@ -114,6 +124,14 @@ func allPaths() []string {
 	}
 	add(pathSegs, 4)
 	add(extraSegs, 2)
+	for _, s := range rareSegs {
+		for _, p := range []string{"/" + s, "/" + s + "/", "/a/" + s, "/a/" + s + "/"} {
+			if !seen[p] {
+				seen[p] = true
+				res = append(res, p)
+			}
+		}
+	}
 	return res
 }
 
@@ -244,6 +262,57 @@ func expandSeq(s []node) []string {
 		res = next
 	}
 	return res
+}
+
+// expandSet returns the set of distinct expansions of s, or ok=false as soon as some prefix of s has more
+// than limit distinct expansions (then s has more than limit distinct expansions too: fixing the rest of
+// the string maps different prefixes to different strings).
+func expandSet(s []node, limit int) (set map[string]bool, ok bool) {
+	res := map[string]bool{"": true}
+	for _, x := range s {
+		var parts map[string]bool
+		if x.alts == nil {
+			parts = map[string]bool{x.lit: true}
+		} else {
+			parts = map[string]bool{}
+			for _, a := range x.alts {
+				as, ok := expandSet(a, limit)
+				if !ok {
+					return nil, false
+				}
+				for e := range as {
+					parts[e] = true
+				}
+				if len(parts) > limit {
+					return nil, false
+				}
+			}
+		}
+		if len(parts) == 1 {
+			for pt := range parts {
+				if pt == "" {
+					continue
+				}
+				next := make(map[string]bool, len(res))
+				for r := range res {
+					next[r+pt] = true
+				}
+				res = next
+			}
+			continue
+		}
+		next := map[string]bool{}
+		for r := range res {
+			for pt := range parts {
+				next[r+pt] = true
+			}
+			if len(next) > limit {
+				return nil, false
+			}
+		}
+		res = next
+	}
+	return res, true
 }
 
 // refParse returns the AST and "" or the reason the pattern is malformed (count limit not included).
@@ -462,6 +531,8 @@ type variantInfo struct {
 	dm, rm  bitset // doublestar verdicts / regex verdicts per path index
 	pool    bool   // member of the precedence pool
 	minToks int
+	fp      string // component fingerprint of the first variant seen with this string
+	from    string // pattern that rendered it
 }
 
 type checker struct {
@@ -472,18 +543,58 @@ type checker struct {
 
 	mu       sync.Mutex
 	variants map[string]*variantInfo
+
+	sameStringCompared int64
 }
 
-func (c *checker) variant(v patterns.PatternVariant, toks int) *variantInfo {
+// fingerprint reads the (unexported) component list of a variant by reflection. It is only used to decide
+// when two variants with the same string deserve the observable comparison below; "" if unavailable.
+func fingerprint(v patterns.PatternVariant) string {
+	comps := reflect.ValueOf(v).FieldByName("components")
+	if !comps.IsValid() || comps.Kind() != reflect.Slice {
+		return ""
+	}
+	var b strings.Builder
+	for i := 0; i < comps.Len(); i++ {
+		c := comps.Index(i)
+		if c.Kind() != reflect.Struct || c.NumField() < 2 || c.Field(0).Kind() != reflect.Int || c.Field(1).Kind() != reflect.String {
+			return ""
+		}
+		fmt.Fprintf(&b, "%d:%q,", c.Field(0).Int(), c.Field(1).String())
+	}
+	return b.String()
+}
+
+// variant registers a rendered variant. The variant string is the variant's identity (rules are stored and
+// compared by it): two variants with the same string — of one pattern or of different patterns — must be
+// the same variant, i.e. match the same paths and have equal precedence.
+func (c *checker) variant(v patterns.PatternVariant, toks int, from string) *variantInfo {
 	c.mu.Lock()
-	defer c.mu.Unlock()
 	vi := c.variants[v.String()]
 	if vi == nil {
-		vi = &variantInfo{v: v, minToks: toks}
+		vi = &variantInfo{v: v, minToks: toks, fp: fingerprint(v), from: from}
 		c.variants[v.String()] = vi
 	}
 	if toks < vi.minToks {
 		vi.minToks = toks
+	}
+	first, firstFP, firstFrom := vi.v, vi.fp, vi.from
+	c.mu.Unlock()
+	if fp := fingerprint(v); fp != firstFP {
+		atomic.AddInt64(&c.sameStringCompared, 1)
+		for _, path := range c.paths {
+			m1, m2 := regexMatches(first, path), regexMatches(v, path)
+			x := 0
+			if m1 && m2 {
+				x, _ = first.Compare(v, path)
+			}
+			if m1 != m2 || x != 0 {
+				c.col.add("same-string-different-variant", v.String()+"@"+path,
+					fmt.Sprintf("pattern %q and pattern %q both render a variant %q, but on %q one matches=%v, the other matches=%v, Compare=%d: the variant string does not identify the expansion", firstFrom, from, v.String(), path, m1, m2, x),
+					vCase{Kind: "pattern", Pattern: from, Other: firstFrom, Path: path})
+				break
+			}
+		}
 	}
 	return vi
 }
@@ -519,49 +630,51 @@ func (c *checker) checkPattern(p pat) (res patResult) {
 		c.r.Distinct("reject_reason", bad)
 		return patResult{}
 	}
+	// distinct reference expansions (nil when there are more than 2000, i.e. more than the limit)
 	var exp []string
-	distinct := raw
-	if raw <= 4000 {
-		exp = expandSeq(ast)
-		set := map[string]bool{}
-		for _, e := range exp {
-			set[e] = true
+	distinct := int64(-1)
+	if set, ok := expandSet(ast, 2000); ok {
+		for e := range set {
+			exp = append(exp, e)
 		}
-		distinct = int64(len(set))
+		sort.Strings(exp)
+		distinct = int64(len(exp))
 	}
 	if err != nil {
-		if distinct <= 1000 {
-			c.col.add("valid-rejected", p.s, fmt.Sprintf("ParsePathPattern(%q): %v; reference: well-formed with %d distinct expansions (%d counting repeats)", p.s, err, distinct, raw), cs)
+		if distinct >= 0 && distinct <= 1000 {
+			c.col.add("valid-rejected", p.s, fmt.Sprintf("ParsePathPattern(%.200q): %v; reference: well-formed with %d distinct expansions (%d counting repeats)", p.s, err, distinct, raw), cs)
 		} else {
 			c.r.Distinct("reject_reason", "too many expansions")
 		}
 		return patResult{}
 	}
+	// accepted ⇒ 0 < NumVariants ≤ limit, and the pattern really has at most `limit` distinct expansions
 	n := pp.NumVariants()
+	if distinct < 0 {
+		c.col.add("limit-exceeded", p.s, fmt.Sprintf("%.200q is accepted (NumVariants()=%d) although it has more than 2000 distinct expansions; limit is 1000", p.s, n), cs)
+		return patResult{}
+	}
+	if n <= 0 || n > 1000 {
+		c.col.add("count-out-of-range", p.s, fmt.Sprintf("%.200q is accepted with NumVariants()=%d; want 0 < n <= 1000 (reference: %d distinct expansions)", p.s, n, distinct), cs)
+		return patResult{} // do not try to enumerate
+	}
 	vs, idxOK := render(pp)
 	if !idxOK || len(vs) != n {
-		c.col.add("count-vs-rendered", p.s, fmt.Sprintf("%q: NumVariants()=%d but %d variants rendered (indices sequential: %v)", p.s, n, len(vs), idxOK), cs)
-	}
-	if n > 1000 || len(vs) > 1000 {
-		c.col.add("limit-exceeded", p.s, fmt.Sprintf("%q accepted with %d variants (%d rendered); limit is 1000", p.s, n, len(vs)), cs)
+		c.col.add("count-vs-rendered", p.s, fmt.Sprintf("%.200q: NumVariants()=%d but %d variants rendered (indices sequential: %v)", p.s, n, len(vs), idxOK), cs)
 	}
 	if int64(n) < distinct || int64(n) > raw {
-		c.col.add("count-vs-reference", p.s, fmt.Sprintf("%q: NumVariants()=%d; reference expansion has %d distinct strings, %d counting repeats", p.s, n, distinct, raw), cs)
+		c.col.add("count-vs-reference", p.s, fmt.Sprintf("%.200q: NumVariants()=%d; reference expansion has %d distinct strings, %d counting repeats", p.s, n, distinct, raw), cs)
 	}
 	res = patResult{valid: true, pp: pp}
-	if exp != nil {
-		res.class = constructClass(p.s, exp)
-	} else {
-		res.class = "too-many-expansions-to-classify"
-	}
+	res.class = constructClass(p.s, exp)
 	got := map[string]bool{}
 	for _, v := range vs {
 		got[v.String()] = true
 		res.variants = append(res.variants, v.String())
-		c.variant(v, len(p.tokens))
+		c.variant(v, len(p.tokens), p.s)
 	}
 	// rendered set == normal forms of the reference expansion
-	if exp != nil {
+	{
 		want := map[string]bool{}
 		for _, e := range exp {
 			ve, err := variantOf(e)
@@ -570,7 +683,7 @@ func (c *checker) checkPattern(p pat) (res patResult) {
 				continue
 			}
 			want[ve.String()] = true
-			c.variant(ve, len(p.tokens))
+			c.variant(ve, len(p.tokens), e)
 		}
 		for w := range want {
 			if !got[w] {
@@ -940,6 +1053,16 @@ func boundaryFamily() []pat {
 	add("/{{a,b},{b,a}}")                                                     // nested duplicates in different order
 	add("/" + strings.Repeat("{", 1000) + "a" + strings.Repeat("}", 1000))   // too deep
 	add("/" + strings.Repeat("{", 999) + "a" + strings.Repeat("}", 999))
+	// many groups: the product passes 2^31, 2^63, 2^64 (two-way: k = 31/32, 63/64; three-way: k = 20/21, 40/41)
+	for _, k := range []int{5, 6, 7, 9, 10, 11, 20, 21, 30, 31, 32, 33, 40, 41, 62, 63, 64, 65, 70, 128} {
+		add("/" + strings.Repeat("{a,b}", k))                              // 2^k
+		add("/" + strings.Repeat("{a,b,c}", k))                            // 3^k
+		add("/{x," + strings.Repeat("{a,b}", k) + "}")                     // 1 + 2^k: product inside an alternative
+		add("/{" + strings.Repeat("{a,b,c}", k) + ",y}{c,d}")              // (3^k + 1) * 2
+		add("/" + strings.Repeat("{a,{b,c}}", k))                          // nested sums, 3^k
+		add("/" + strings.Repeat("{a,a}", k))                              // 2^k counting repeats, 1 distinct
+		add("/" + strings.Repeat("{a,b}", k) + strings.Repeat("{c,c}", k)) // mixed
+	}
 	return out
 }
 
@@ -993,7 +1116,7 @@ func TestC37(t *testing.T) {
 			if err != nil {
 				eng.HarnessError("replay: %q is not a single-variant pattern: %v", cs.Pattern, err)
 			}
-			c.checkVariantPaths(c.variant(v, 1))
+			c.checkVariantPaths(c.variant(v, 1, cs.Pattern))
 		case "precedence":
 			var vs []patterns.PatternVariant
 			for _, s := range cs.Variants {
@@ -1022,7 +1145,11 @@ func TestC37(t *testing.T) {
 	maxTokens := r.Pick(4, 5)
 	poolTokens := r.Pick(3, 4)
 	tripleMax := r.Pick(40, 64)
-	pats := allPatterns(maxTokens)
+	toks := restTokens
+	if r.Thorough() {
+		toks = append(append([]string{}, restTokens...), moreEscapes...)
+	}
+	pats := allPatterns(maxTokens, toks)
 	pats = append(pats, boundaryFamily()...)
 
 	// ---- pass A: validity, counts, expansions
@@ -1054,6 +1181,10 @@ func TestC37(t *testing.T) {
 		atomic.AddInt64(&vEvals, c.checkVariantPaths(vlist[i]))
 	})
 	r.Add("distinct_variants", int64(len(vlist)))
+	r.Add("same_string_variants_with_different_components_compared", c.sameStringCompared)
+	if fingerprint(vlist[0].v) == "" {
+		r.Info("warning", "component fingerprint unavailable: the same-string law was not exercised")
+	}
 	r.Add("variant_path_evaluations", vEvals)
 
 	// ---- pass C: pattern matches ⇔ some variant matches
@@ -1148,11 +1279,11 @@ func TestC37(t *testing.T) {
 	col.flush(r)
 	r.Add("evaluations", int64(len(pats))+vEvals+pEvals+prPairs+prTriples+gEvals)
 	r.Add("distinct_nontrivial", pMatched+prSets+gEvals)
-	r.Info("bounds", map[string]int{"max_tokens": maxTokens, "first_tokens": len(firstTokens), "rest_tokens": len(restTokens), "paths": len(paths),
+	r.Info("bounds", map[string]int{"max_tokens": maxTokens, "first_tokens": len(firstTokens), "rest_tokens": len(toks), "paths": len(paths),
 		"precedence_pool_max_tokens": poolTokens, "triple_max_set": tripleMax, "boundary_family": len(boundaryFamily())})
 	r.Sample(vCase{Kind: "pattern", Pattern: "/a{,/}/**", Path: "/a/b"})
 	r.Sample(vCase{Kind: "pattern", Pattern: pats[len(pats)/2].s, Path: paths[len(paths)/2]})
 	r.Sample(vCase{Kind: "precedence", Path: "/a/b", Variants: []string{"/a/b", "/a/?", "/a/*", "/**/b", "/**"}})
 	r.Sample(vCase{Kind: "generalise", Pattern: "/a/b", Other: "/a/*", Path: "/a/b"})
-	r.Finish("every pattern of ≤ max_tokens tokens (first token from 4, the others from 18) plus a variant-count boundary family: validity, counts and expansion laws; every distinct rendered variant × every path: doublestar verdict vs the variant's regex; every valid pattern × every path: pattern matches ⇔ some variant matches; for every path the set of all pooled variants (patterns of ≤ precedence_pool_max_tokens tokens) matching it: all ordered pairs through Compare, list/reverse/rotations/pairs/triples through HighestPrecedencePattern; every one-step generalisation of every pooled group-free pattern on every path it matches. distinct_nontrivial = (pattern,path) pairs that match (the equivalence is checked on all pairs; matching ones are those where a variant had to be found) + paths with ≥ 2 competing variants + generalisation comparisons actually made")
+	r.Finish("every pattern of ≤ max_tokens tokens (first token from 4, the others from 21 quick / 24 thorough, incl. an escaped form of every metacharacter) plus a variant-count boundary family: validity, counts and expansion laws; every distinct rendered variant × every path: doublestar verdict vs the variant's regex; every valid pattern × every path: pattern matches ⇔ some variant matches; for every path the set of all pooled variants (patterns of ≤ precedence_pool_max_tokens tokens) matching it: all ordered pairs through Compare, list/reverse/rotations/pairs/triples through HighestPrecedencePattern; every one-step generalisation of every pooled group-free pattern on every path it matches. distinct_nontrivial = (pattern,path) pairs that match (the equivalence is checked on all pairs; matching ones are those where a variant had to be found) + paths with ≥ 2 competing variants + generalisation comparisons actually made")
 }
